@@ -220,6 +220,37 @@ def scale(x, W, trans='N', inverse='N'):
     return y
 
 
+def numeric_rank(rows, tol=1e-9):
+    """rank of a matrix given as list of rows, by Gaussian elimination with partial pivoting;
+    also returns the ratio smallest/largest pivot (a crude conditioning measure)"""
+    A = [list(map(float, r)) for r in rows if r is not None]
+    if not A or not A[0]:
+        return 0, 1.0
+    m, n = len(A), len(A[0])
+    scale = max((abs(v) for r in A for v in r), default=0.0)
+    if scale == 0.0:
+        return 0, 0.0
+    rank = 0
+    piv = []
+    row = 0
+    for c in range(n):
+        if row >= m:
+            break
+        best = max(range(row, m), key=lambda r: abs(A[r][c]))
+        if abs(A[best][c]) <= tol * scale:
+            continue
+        A[row], A[best] = A[best], A[row]
+        piv.append(abs(A[row][c]))
+        for r in range(row + 1, m):
+            f = A[r][c] / A[row][c]
+            if f != 0.0:
+                for k in range(c, n):
+                    A[r][k] -= f * A[row][k]
+        row += 1
+        rank += 1
+    return rank, (min(piv) / max(piv) if piv else 0.0)
+
+
 def selftest():
     # hand-computed cases
     assert abs(margin([1.0, 2.0, 3.0, 0.0, 0.0], {'l': 2, 'q': [3], 's': []}) - 1.0) < 1e-15
